@@ -1947,6 +1947,69 @@ def mixin_api(rng, name, mixins, rules_mode, own_iam=None, add_iam=False, transp
     return api
 
 
+def extop_api(rng, name):
+    """Compute-style extended operations (google.cloud.extended_operations): initiating RPCs name a polling service (C16)."""
+    from google.cloud import extended_operations_pb2 as xo
+    api = Api(name)
+    ver = "v1"
+    pkg = f"vp.{name}.{ver}"
+    P = "." + pkg
+    f = File(f"vp/{name}/{ver}/{name}.proto", pkg, deps=list(STD_DEPS) + ["google/cloud/extended_operations.proto"])
+    api.dep_mods += ["google.cloud.extended_operations_pb2"]
+    api.add(f)
+    op = f.message("Operation")
+    st = op.enum("Status", "UNDEFINED_STATUS", "DONE", "PENDING", "RUNNING")
+    for nm, typ, mapping in (("name", "string", xo.NAME), ("http_error_message", "string", xo.ERROR_MESSAGE),
+                             ("http_error_status_code", "int32", xo.ERROR_CODE), ("status", st, xo.STATUS)):
+        fld = op.field(nm, typ, optional=True)
+        fld.options.Extensions[xo.operation_field] = mapping
+    op.field("target", "string")
+    gq = f.message("GetRegionOperationRequest")
+    fld = gq.field("operation", "string", required=True)
+    fld.options.Extensions[xo.operation_response_field] = "name"
+    gq.field("project", "string", required=True)
+    gq.field("region", "string", required=True)
+    addr = f.message("Address")
+    addr.field("address", "string")
+    addr.field("labels_note", "string")
+    for rq in ("InsertAddressRequest", "DeleteAddressRequest", "GetAddressRequest", "ListAddressesRequest"):
+        q = f.message(rq)
+        q.field("project", "string")
+        q.field("region", "string")
+        if rq == "InsertAddressRequest":
+            q.field("address_resource", P + ".Address")
+        elif rq == "ListAddressesRequest":
+            q.field("max_results", "uint32")
+            q.field("page_token", "string")
+        else:
+            q.field("address", "string")
+    al = f.message("AddressList")
+    al.field("items", P + ".Address", repeated=True)
+    al.field("next_page_token", "string")
+    unused = f.message("NeverUsed")
+    unused.field("x", "string")
+    host = f"{name}.googleapis.com"
+    ops = f.service("RegionOperations", host=host)
+    m = ops.rpc("Get", P + ".GetRegionOperationRequest", P + ".Operation",
+                http={"get": "/compute/v1/projects/{project}/regions/{region}/operations/{operation}"}, sigs=["project,region,operation"])
+    ops.pb.method[-1].options.Extensions[xo.operation_polling_method] = True
+    ops.rpc("Wait", P + ".GetRegionOperationRequest", P + ".Operation",
+            http={"post": "/compute/v1/projects/{project}/regions/{region}/operations/{operation}/wait"})
+    ad = f.service("Addresses", host=host)
+    base = "/compute/v1/projects/{project}/regions/{region}/addresses"
+    ad.rpc("Insert", P + ".InsertAddressRequest", P + ".Operation", http={"post": base}, body="address_resource", sigs=["project,region,address_resource"])
+    ad.pb.method[-1].options.Extensions[xo.operation_service] = "RegionOperations"
+    ad.rpc("Delete", P + ".DeleteAddressRequest", P + ".Operation", http={"delete": base + "/{address}"}, sigs=["project,region,address"])
+    ad.pb.method[-1].options.Extensions[xo.operation_service] = "RegionOperations"
+    ad.rpc("Get", P + ".GetAddressRequest", P + ".Address", http={"get": base + "/{address}"}, sigs=["project,region,address"])
+    ad.rpc("List", P + ".ListAddressesRequest", P + ".AddressList", http={"get": base}, sigs=["project,region"])
+    api.options = ["transport=grpc", "autogen-snippets=false"]
+    api.info.update(pkg=pkg, version=ver, ns=["vp"], name=name, host=host,
+                    extended=["Addresses.Insert", "Addresses.Delete"], polling=("RegionOperations", "Get"))
+    api.tags.add("extended-operations")
+    return api
+
+
 def selective_publishing(pkg, methods, internal=False):
     """publishing section of a service YAML for selective GAPIC generation."""
     sel = {"methods": list(methods)}
